@@ -75,6 +75,15 @@ def run_family(prop, tier, seed, replay, origin="writer", mc_cfg=None, level="mo
                 empt.append({"k": "case", "origin": origin, "fmt": fmt, "tf": tf, "tc": "none", "tiles": tiles, "choices": {"none": 1},
                              "classes": {"6": [999, 1], "9": [0, 4], "1": [5, 0]}, "directed": "empty_payload"})
         case_list += empt
+        # directed: columns whose row numbers have DIFFERENT NUMBERS OF DIGITS (9, 10, 11 / 99, 100, 101): file names then sort
+        # differently from rows ("10" < "11" < "9"), and the extreme row is neither the first nor the last name of its column
+        for fmt, tf, tc in (("directory", "pbf", "gzip"), ("directory", "png", "none"), ("tar", "pbf", "none"), ("mbtiles", "pbf", "gzip"),
+                            ("versatiles", "pbf", "brotli"), ("pmtiles", "pbf", "gzip")):
+            for tiles in ([[4, 3, 9, 1], [4, 3, 10, 2], [4, 3, 11, 3], [4, 5, 10, 4]],
+                          [[7, 99, 99, 1], [7, 99, 100, 2], [7, 99, 101, 3], [7, 100, 100, 4], [7, 9, 100, 5]],
+                          [[4, 9, 3, 1], [4, 10, 3, 2], [4, 11, 3, 3], [4, 10, 5, 4]]):
+                case_list.append({"k": "case", "origin": origin, "fmt": fmt, "tf": tf, "tc": tc, "tiles": tiles, "choices": {"none": 1},
+                                  "directed": "digit_count"})
         with open(cases, "w") as f:
             for c in case_list:
                 f.write(json.dumps(c) + "\n")
